@@ -145,3 +145,47 @@ Proof.
     + subst z. cbn in E2. apply Z.eqb_neq in E2. contradiction.
 Qed.
 Print Assumptions expects_spec.
+
+(* ================================================================ histories with every covered call *)
+From Sod.Proofs Require Import Batch Extended Reads.
+
+Definition is_flush1 (o : op) : bool := match o with OFlushOne _ _ _ => true | _ => false end.
+
+Definition wf_op4 (hk : hooks) (s : state) (o : op) : Prop :=
+  match o with
+  | OFlushOne u ob _ => exists sp, abs s = Some sp /\ assoc u (sp_map sp) = Some ob   (* the last accepted value *)
+  | _ => if read_op o then True else wf_op2 hk s o
+  end.
+
+Fixpoint wf_hist4 (hk : hooks) (ls : N) (s : state) (ops : list op) : Prop :=
+  match ops with
+  | [] => True
+  | o :: r => wf_op4 hk s o /\ wf_hist4 hk ls (fst (step hk ls s o)) r
+  end.
+
+(* EVERY HISTORY mixing the write / read / maintenance calls of C01 (single, batch, chunked, DeleteAll),
+   search calls of any kind and arguments (Expects included) and single-object flushes of accepted
+   values: the invariant holds at the end and the collection is what the map specification reaches on
+   the history WITHOUT its search and flush calls *)
+Theorem C01_history_all hk ls ops : forall s, Inv ls s -> wf_hist4 hk ls s ops ->
+  Inv ls (run hk ls s ops) /\
+  abs (run hk ls s ops) = fst (spec_run2 hk (abs s) (filter (fun o => negb (read_op o || is_flush1 o)) ops)).
+Proof.
+  induction ops as [|o r IH]; intros s I W.
+  - cbn. split; [exact I|reflexivity].
+  - destruct W as [W1 W2]. unfold run in *. cbn [fold_left filter].
+    destruct (is_flush1 o) eqn:Hf.
+    + destruct o; try discriminate Hf. rewrite orb_true_r. cbn [negb].
+      destruct W1 as [sp [Ha Hu]].
+      destruct (flush_one_refines hk ls s u ob withc sp I Ha Hu) as [I1 [A1 _]].
+      destruct (IH _ I1 W2) as [I2 A2]. split; [exact I2|]. rewrite A2, A1. reflexivity.
+    + assert (W1' : if read_op o then True else wf_op2 hk s o) by (destruct o; try exact W1; discriminate Hf).
+      rewrite orb_false_r. destruct (read_op o) eqn:Hr; cbn [negb].
+      * destruct (reads_are_silent hk ls s o I Hr) as [I1 [A1 _]].
+        destruct (IH _ I1 W2) as [I2 A2]. split; [exact I2|]. rewrite A2, A1. reflexivity.
+      * destruct (C01_refines_bulk hk ls s o I W1') as [I1 [A1 _]].
+        destruct (IH _ I1 W2) as [I2 A2]. split; [exact I2|]. rewrite A2, A1. cbn [spec_run2].
+        destruct (spec_step2 hk (abs s) o) as [a1 x]. cbn [fst].
+        destruct (spec_run2 hk a1 (filter (fun o0 => negb (read_op o0 || is_flush1 o0)) r)). reflexivity.
+Qed.
+Print Assumptions C01_history_all.
